@@ -231,6 +231,17 @@ func history(m *mon.M, r *rand.Rand, hIdx, blocks int, replayEvery int, follower
 		// from the block's inputs and the block's stored trim list, report it under its own signature and
 		// carry the drift forward so that every other discrepancy is still caught.
 		if trimmed, err := rawdb.ReadTrimmedUTXOs(a.N.Zone().DB, mined.Hash); err == nil && len(trimmed) > 0 {
+			// how many of the per-denomination trimming goroutines had work in this block: two or more of
+			// them writing is the concurrent case (shared batch, undo list, counters)
+			den := map[uint8]bool{}
+			for _, tu := range trimmed {
+				den[tu.Denomination] = true
+			}
+			k := fmt.Sprint(len(den))
+			if len(den) >= 3 {
+				k = "3+"
+			}
+			m.Eval("trimming-goroutines-with-deletions:"+k, mined.Hash.Hex())
 			spent := map[string]bool{}
 			for _, tx := range zb.Transactions() {
 				if tx.Type() == types.QiTxType {
@@ -386,4 +397,19 @@ func TestC06(t *testing.T) {
 		history(m, r, h, blocks, 5, fol)
 	}
 	m.Floor(int64(nHist*blocks), 6)
+}
+
+// TestC06RaceShort is the quick tier's race-detector pass: one short history, no followers, so that
+// Process / Finalize / the per-denomination trimming goroutines / the prefetcher run under -race on
+// every change. It must see blocks in which two or more trimming goroutines delete outputs.
+func TestC06RaceShort(t *testing.T) {
+	m := mon.New(t, "C06", "chain-race-quick")
+	defer m.Finish()
+	m.Rule("one hnet history of 36 blocks with the traffic of the chain stage, built with -race: every block is executed by the live node, every sixth block re-executed on three cold twins under GOMAXPROCS 1/2/16 with PRNG delays at the trimming goroutines; race reports whose stacks touch the property's anchor files are violations; distinct = block hashes")
+	m.Assume("protocol timeline and TrimDepths compressed", "single live slice")
+	history(m, m.Rand("race-history"), 0, m.N(36, 36), 6, nil)
+	m.Floor(30, 5)
+	if m.Seen("trimming-goroutines-with-deletions:2")+m.Seen("trimming-goroutines-with-deletions:3+") == 0 {
+		m.Inconclusive("no block in which two or more trimming goroutines deleted outputs")
+	}
 }
